@@ -1,7 +1,7 @@
 (* C06  Per-block GroupSize/GroupIndex sets are sound and exact.  Property theorems only.
    The comparison leaf int_get_asserted_int_values is REGENERATED from int_fields.py on every run. *)
 From Coq Require Import ZArith List Bool.
-From Tealer Require Import LeafPrelude Tables Leaves Syntax StackAst Analysis Domains LeafLemmas AssertedLemmas Instances SolverLemmas.
+From Tealer Require Import LeafPrelude Tables Leaves Syntax StackAst Analysis Domains LeafLemmas AssertedLemmas Instances SolverLemmas Keys Eval Runs Exec SingleLemmas ExecLemmas.
 Import ListNotations.
 
 (* comparison -> (true set, false set): all six operators, exact on the universe *)
@@ -37,7 +37,23 @@ Theorem C06_conditions_exact : forall U single det,
     (zgamma U (snd (asserted (list Z) U [] zunion zinter single c)) v <-> csat (inU U) det v c false).
 Proof. exact int_conditions_exact. Qed.
 
+(* END TO END: the group size (sz = true) / own group index (sz = false) of every approving concrete execution
+   is in the set reported for every block it passes through.  _partial: int_leaves_ok excludes exactly the
+   mirrored ordered comparisons of known finding D2 (refuted: SingleLemmas.int_single_mirrored_refuted). *)
+Theorem C06_sound_end_to_end_partial : forall e sem f sz fuel lo cfgs,
+  sem_ok e sem -> env_ok e -> fn_intcs f = e_intcs e -> graph_ok f ->
+  int_leaves_ok f sz -> run_int f fuel sz = Done lo -> Accepts e sem f cfgs ->
+  forall b st, In (b, st) cfgs -> exists v, Analysis.lookup (list Z) lo b = Some v /\ In (int_value sz e) v.
+Proof. exact C06_sound_partial. Qed.
+Theorem C06_mirrored_refuted : exists e op args,
+  env_ok e /\ leaf_truth e op args = Some true /\ mirrored_ordered true (e_intcs e) op args = true /\
+  fst (int_single true (e_intcs e) op 0 args) = [1%Z; 2%Z] /\
+  ~ In (int_value true e) (fst (int_single true (e_intcs e) op 0 args)).
+Proof. exact int_single_mirrored_refuted. Qed.
+
 Print Assumptions C06_true_set_exact.
 Print Assumptions C06_false_set_exact.
 Print Assumptions C06_conditions_sound.
 Print Assumptions C06_conditions_exact.
+Print Assumptions C06_sound_end_to_end_partial.
+Print Assumptions C06_mirrored_refuted.
